@@ -46,7 +46,7 @@ Definition ex_ctx : ctx nat (list nat) unit nat unit :=
     (fun t => match t with 1 => [ex_idrel 0 1] | 2 => [ex_idrel 1 2] | _ => [] end)
     (fun t d st => Ok (ex_cont t d, st)) (fun t => Nat.eqb t 0) 0 (fun l => l) (fun _ => tt)
     (fun d => Z.of_nat (length d)) (fun d _ => d) (fun _ => []) (fun _ _ => Raise KeyError) (fun _ => tt) (fun l => l)
-    (fun t => Z.of_nat t) (fun _ _ => 0%Z).
+    (fun _ _ => Raise KeyError) (fun t => Z.of_nat t) (fun _ _ => 0%Z).
 Example C01_example :
   exists ts w, VT_init ex_ctx (VT_blank ex_ctx) [0; 1; 2] [] = Ok (tt, ts, w) /\
     (forall t v, In t [0;1;2] -> In v [0;1;2] -> forall ea, g_edge Nat.eqb (base_graph ts) t v = Ok ea ->
